@@ -49,6 +49,7 @@ var floors = map[string]float64{
 	"n1lt-n9-d1-slots6":       -26.4, // n=22
 	"n1lt-noeph-n9":           -25.2, // n=26
 	"order-custom-n8":         -24.6, // n=34
+	"noeph-q0-55-n9":          -26.4, // n=32
 	"q0above-evalmod55-n9":    -22.0, // n=32
 	"q0above-n9":              -24.7, // n=30
 	"order-decode-first-n8":   -24.6, // n=29
